@@ -241,3 +241,103 @@ class FortranProgram:
                 if c not in self.units:
                     out.add(c)
         return out
+
+
+# ----------------------------------------------------------------------
+def f2py_signatures(path):
+    """{ROUTINE: [python positional argument names, upper case]} for the
+    subroutines of one Fortran source, by f2py's rules for the constructs these
+    files use: intent(out) dummies are results; an integer dummy that dimensions
+    another dummy becomes optional and moves behind the required arguments."""
+    raw = open(path, errors='replace').read().splitlines()
+    fixed = path.lower().endswith(('.for', '.f'))
+    # logical lines with the f2py directives kept
+    lines = []
+    for ln in raw:
+        if fixed:
+            if ln[:1] in ('c', 'C', '*', '!'):
+                m = re.match(r'^[cC*!]f2py\s+(.*)$', ln)
+                if m:
+                    lines.append('!F2PY ' + m.group(1))
+                continue
+            if len(ln) > 5 and ln[5] not in (' ', '0') and ln[:5].strip() == '' and lines:
+                lines[-1] += ' ' + ln[6:].split('!')[0].strip()
+                continue
+            lines.append(ln[6:].split('!')[0].strip() if len(ln) > 6 else '')
+        else:
+            t = ln.strip()
+            m = re.match(r'^!f2py\s+(.*)$', t, re.I)
+            if m:
+                lines.append('!F2PY ' + m.group(1))
+                continue
+            t = t.split('!')[0].strip()
+            if lines and lines[-1].endswith('&'):
+                lines[-1] = lines[-1][:-1].rstrip() + ' ' + t.lstrip('&').strip()
+            else:
+                lines.append(t)
+    out = {}
+    cur = None
+    for t in lines:
+        m = re.match(r'^\s*(?:recursive\s+)?subroutine\s+(\w+)\s*\(([^)]*)\)', t, re.I)
+        if m:
+            cur = dict(name=m.group(1).upper(),
+                       args=[a.strip().upper() for a in m.group(2).split(',') if a.strip()],
+                       out=set(), ints=set(), dims=[])
+            out[cur['name']] = cur
+            continue
+        if cur is None:
+            continue
+        if re.match(r'^\s*end\s*(subroutine)?\b', t, re.I) and not re.match(
+                r'^\s*end\s*(if|do|select|where)', t, re.I):
+            cur = None
+            continue
+        up = t.upper()
+        if up.startswith('!F2PY'):
+            m = re.match(r'!F2PY\s+INTENT\(([^)]*)\)\s*(?:::)?\s*(.*)$', up)
+            if m and 'OUT' in m.group(1) and 'IN' not in m.group(1).replace('INOUT', ''):
+                cur['out'].update(a.strip() for a in m.group(2).split(',') if a.strip())
+            continue
+        if '::' in up:
+            attrs, names = up.split('::', 1)
+            names_l = [re.sub(r'\(.*$', '', n).strip()
+                       for n in re.split(r',(?![^(]*\))', names)]
+            if re.search(r'INTENT\s*\(\s*OUT\s*\)', attrs):
+                cur['out'].update(names_l)
+            if re.match(r'^\s*INTEGER', attrs):
+                cur['ints'].update(names_l)
+            d = re.search(r'DIMENSION\s*\(([^)]*(?:\([^)]*\)[^)]*)*)\)', attrs)
+            if d:
+                cur['dims'].append((names_l, d.group(1)))
+            for n in re.split(r',(?![^(]*\))', names):
+                mm = re.match(r'\s*(\w+)\s*\((.*)\)\s*$', n)
+                if mm:
+                    cur['dims'].append(([mm.group(1)], mm.group(2)))
+        else:
+            # F77 declarations: INTEGER N / DOUBLE PRECISION X(N)
+            m = re.match(r'^\s*INTEGER\b\s*(.*)$', up)
+            if m:
+                cur['ints'].update(re.sub(r'\(.*$', '', n).strip()
+                                   for n in re.split(r',(?![^(]*\))', m.group(1)))
+            for mm in re.finditer(r'(\w+)\s*\(([^()]*)\)', up):
+                cur['dims'].append(([mm.group(1)], mm.group(2)))
+    sigs = {}
+    for name, u in out.items():
+        dimvars = set()
+        implicit = not any('IMPLICIT NONE' in x.upper() for x in lines)
+
+        def is_int(tok):
+            return tok in u['ints'] or (implicit and tok[:1] in 'IJKLMN')
+        for names_l, expr in u['dims']:
+            # only input arrays determine a size, and only an extent that is the
+            # bare variable can be solved for it
+            if not any(n in u['args'] and n not in u['out'] for n in names_l):
+                continue
+            for ext in re.split(r',(?![^(]*\))', expr):
+                tok = ext.strip()
+                if re.match(r'^[A-Z_]\w*$', tok) and tok in u['args'] and is_int(tok) \
+                        and tok not in names_l:
+                    dimvars.add(tok)
+        req = [a for a in u['args'] if a not in u['out'] and a not in dimvars]
+        opt = [a for a in u['args'] if a in dimvars and a not in u['out']]
+        sigs[name] = req + opt
+    return sigs
